@@ -44,7 +44,9 @@ LeavesOf(fam) ==
                           Uni(<<TString, Obj(<<Prop("b", Uni(<<TNumber, TBoolean>>), FALSE)>>, <<>>)>>)}
     [] fam = "tpl"    -> {Tpl(<<TpLit("x"), TpNum>>), Tpl(<<TpStr, TpLit("-"), TpStr>>), Tpl(<<TpBool>>),
                           Tpl(<<TpLit("a"), TpOne(<<"b", "bc">>)>>), Tpl(<<TpNum, TpLit("px")>>),
-                          Tpl(<<TpLit("a."), TpStr>>), Tpl(<<TpStr>>), Tpl(<<TpOne(<<"a", "ab">>), TpLit("c")>>)}
+                          Tpl(<<TpLit("a."), TpStr>>), Tpl(<<TpStr>>), Tpl(<<TpOne(<<"a", "ab">>), TpLit("c")>>),
+                          \* text that has to be escaped inside a template (the type is about the text, not about its spelling)
+                          Tpl(<<TpLit("c:\\"), TpStr>>), Tpl(<<TpLit("a$" \o "{x}")>>), Tpl(<<TpLit("q`"), TpNum>>)}
     [] fam = "nonjson" -> {Prim("Date"), Prim("bigint"), TaT("Uint8Array"), TaT("Float64Array"), TString, TNumber, Prim("function"),
                            \* leaves kept by several members of a non-discriminated union (parse merges the members' results)
                            Uni(<<Obj(<<Prop("m", MapT(TString, TNumber), FALSE), Prop("a", TString, FALSE)>>, <<>>),
@@ -186,7 +188,8 @@ Init == /\ ty \in LeavesOf(Family)
 \* TypeScript admits string, number, template literal patterns and unions of these as index signature key types - not
 \* literal types, objects, ...
 RECURSIVE IndexKeyOK(_)
-IndexKeyOK(t) == \/ t.t = "tpl" \/ (t.t = "prim" /\ t.p \in {"string", "number"})
+IndexKeyOK(t) == \/ (t.t = "tpl" /\ \E i \in DOMAIN t.parts : t.parts[i].p \in {"str", "num", "bool"})   \* a pattern, not a literal
+                 \/ (t.t = "prim" /\ t.p \in {"string", "number"})
                  \/ (t.t = "union" /\ \A i \in DOMAIN t.ms : IndexKeyOK(t.ms[i]))
 Wrap(a) == /\ a \in Unary \ {"alias", "rec", "recTuple", "iface", "shared"}
            /\ (a \in {"indexKey", "indexKeyAny"} => IndexKeyOK(ty))
